@@ -87,7 +87,7 @@ func checkC10(c *Ctx) (int, error) {
 	c.ev.Level = "model_checking"
 	c.ev.Assumptions = []string{"Write/Flush histories exhaustive up to the stated length over abstract size classes; payload bytes and the concrete size inside a class are seeded samples",
 		"'any conforming inflater' is represented by the RFC 1951 reference inflater of the harness and compress/flate (gzip/zlib: the standard library's container readers)"}
-	if err := c.ModelCheck("WriterModel", "MC_WriterModel.cfg", 5*time.Minute); err != nil {
+	if err := c.writerModels(); err != nil {
 		return 0, err
 	}
 	maxLen, per := 4, 6
@@ -132,7 +132,7 @@ func checkC01(c *Ctx) (int, error) {
 	c.ev.Level = "model_checking"
 	c.ev.Assumptions = []string{"call histories (Write/Flush partitions) exhaustive up to the stated length; data bytes sampled from seeded classes",
 		"decoders: compress/flate, the harness's RFC 1951 reference inflater, fastgo's own Reader"}
-	if err := c.ModelCheck("WriterModel", "MC_WriterModel.cfg", 5*time.Minute); err != nil {
+	if err := c.writerModels(); err != nil {
 		return 0, err
 	}
 	maxLen, per := 3, 4
@@ -336,7 +336,7 @@ func init() { checks["C12"] = checkC12 }
 func checkC12(c *Ctx) (int, error) {
 	c.ev.Level = "model_checking"
 	c.ev.Assumptions = []string{"histories h1;Reset;h2 exhaustive up to the stated length (TLC, WriterModel); a destination failure inside h1 is placed at call 1..3; payload bytes are seeded samples (h2 uses different data from h1)"}
-	if err := c.ModelCheck("WriterModel", "MC_WriterModel.cfg", 5*time.Minute); err != nil {
+	if err := c.writerModels(); err != nil {
 		return 0, err
 	}
 	maxLen, per := 5, 3
